@@ -1,3 +1,306 @@
--- stub: the driver of C08 is not built yet
+/-
+  Line-protocol driver of C08.
+
+    M route <tok>*              → the model's observation (Wm.Route.route)
+    P route <tok>* ## <obs>     → the property monitor on the implementation's observation
+
+  request tokens (strings are lowercase hex of their UTF-8 bytes, `-` = empty string):
+    S<id>=<name>                       subscriber object and its StructName
+    P<id>=<name>                       publisher object and its StructName
+    h=<name>:<subId>:<subTopic>:<pubSpec>:<pubTopic>:<mwOut>
+                                       AddHandler; pubSpec = p<id> | np (AddNoPublisherHandler) | nil (nil publisher)
+    d=<subId>:<topic>:<mid>:<shape>[:<ctx>]
+                                       a message arrives at (subscriber, topic); shape = E (function errs) | - (no outputs)
+                                       | `.`-separated objects c (the consumed message) / f<k> (k-th fresh object);
+                                       ctx = `.`-separated `<keyIdx>_<value>` already on the incoming context (innermost first)
+  observation:
+    subs=<total>:<c0>,<c1>,…  orphans=<n>  H<i>:<msg>;<msg>…   (one H block per handler that received something)
+    msg  = <mid>/<fns>/<ctx5>/<A|N|T>/<pubs>        fns = `+`-joined handler indices whose function got the copy, `-` none
+    ctx5 = <handler>:<pubName>:<subName>:<subTopic>:<pubTopic>
+    pubs = - | `+`-joined  P<id>@<topic>[<item>,…]   item = <c|f<k>|m<k>|x>~<u|M>~<ctx5>
+-/
 import WmModel.Basic
-def main : IO Unit := Wm.driverMain (fun _ => "bad-op")
+import WmModel.Route
+open Wm Wm.Route
+
+def splitOnChar (c : Char) : List Char → List (List Char)
+  | [] => [[]]
+  | x :: rest =>
+    match splitOnChar c rest with
+    | [] => [[]]
+    | cur :: more => if x == c then [] :: cur :: more else (x :: cur) :: more
+
+def natOf (cs : List Char) : Option Nat :=
+  if cs.isEmpty || !cs.all Char.isDigit then none else some (cs.foldl (fun n c => 10 * n + (c.toNat - 48)) 0)
+
+def isHexTok (cs : List Char) : Bool :=
+  cs == ['-'] || (!cs.isEmpty && cs.length % 2 == 0 && cs.all fun c => c.isDigit || ('a' ≤ c && c ≤ 'f'))
+
+/-- a name token → the string the model works with: `""` for `-`, otherwise the hex text itself (hex of a non-empty
+    string is non-empty and hex is injective, so equality and emptiness are preserved) -/
+def strOf (cs : List Char) : Option String :=
+  if !isHexTok cs then none else if cs == ['-'] then some "" else some (String.ofList cs)
+
+def tokOfStr (s : String) : String := if s.isEmpty then "-" else s
+
+def hexOfAscii (s : String) : String := hexEnc s.toUTF8.toList
+
+def disabledPublisherName : String := hexOfAscii "message.disabledPublisher"
+def nilName : String := hexOfAscii "<nil>"
+
+structure Req where
+  subs : List (Nat × String) := []
+  pubs : List (Nat × String) := []
+  hs   : List HCfg := []
+  ds   : List Delivery := []
+
+def refOf (cs : List Char) : Option Ref :=
+  match cs with
+  | ['c'] => some .consumed
+  | 'f' :: r => (natOf r).map .fresh
+  | 'm' :: r => (natOf r).map .mw
+  | _ => none
+
+def shapeOf (cs : List Char) : Option Shape :=
+  if cs == ['E'] then some .err
+  else if cs == ['-'] then some (.outs [])
+  else ((splitOnChar '.' cs).mapM fun t => match refOf t with
+    | some (.mw _) => none      -- the function itself never returns middleware objects
+    | r => r).map .outs
+
+def keyOf : Nat → Option Key
+  | 0 => some .handlerName | 1 => some .publisherName | 2 => some .subscriberName
+  | 3 => some .subscribeTopic | 4 => some .publishTopic | _ => none
+
+def ctxOf (cs : List Char) : Option Ctx :=
+  (splitOnChar '.' cs).mapM fun t =>
+    match splitOnChar '_' t with
+    | [k, v] => do
+      let k ← natOf k
+      let k ← keyOf k
+      let v ← strOf v
+      pure (k, v)
+    | _ => none
+
+def addTok (r : Req) (tok : String) : Option Req :=
+  match splitOnChar '=' tok.toList with
+  | ['h'] :: [body] =>
+    match splitOnChar ':' body with
+    | [name, sub, st, ps, pt, mw] => do
+      let name ← strOf name
+      let sub ← natOf sub
+      let st ← strOf st
+      let pt ← strOf pt
+      let mw ← natOf mw
+      let (_, sn) ← r.subs.find? (·.1 == sub)
+      if r.hs.any (·.name == name) then none else
+      match ps with
+      | ['n', 'p'] => if pt != "" then none else
+          pure { r with hs := r.hs ++ [⟨name, sub, st, sn, none, "", disabledPublisherName, mw, true⟩] }
+      | ['n', 'i', 'l'] => pure { r with hs := r.hs ++ [⟨name, sub, st, sn, none, pt, nilName, mw, false⟩] }
+      | 'p' :: p => do
+        let p ← natOf p
+        let (_, pn) ← r.pubs.find? (·.1 == p)
+        pure { r with hs := r.hs ++ [⟨name, sub, st, sn, some p, pt, pn, mw, false⟩] }
+      | _ => none
+    | _ => none
+  | ['d'] :: [body] =>
+    match splitOnChar ':' body with
+    | [sub, t, mid, sh] => do
+      let sub ← natOf sub
+      let t ← strOf t
+      let mid ← natOf mid
+      let sh ← shapeOf sh
+      pure { r with ds := r.ds ++ [⟨sub, t, mid, sh, []⟩] }
+    | [sub, t, mid, sh, cx] => do
+      let sub ← natOf sub
+      let t ← strOf t
+      let mid ← natOf mid
+      let sh ← shapeOf sh
+      let cx ← ctxOf cx
+      pure { r with ds := r.ds ++ [⟨sub, t, mid, sh, cx⟩] }
+    | _ => none
+  | ('S' :: id) :: [name] => do
+    let id ← natOf id
+    let name ← strOf name
+    if r.subs.any (·.1 == id) then none else pure { r with subs := r.subs ++ [(id, name)] }
+  | ('P' :: id) :: [name] => do
+    let id ← natOf id
+    let name ← strOf name
+    if r.pubs.any (·.1 == id) then none else pure { r with pubs := r.pubs ++ [(id, name)] }
+  | _ => none
+
+def parseReq (toks : List String) : Option Req := toks.foldlM addTok {}
+
+/-! ### rendering the model's observation -/
+
+def ctx5Str (c : Ctx5) : String :=
+  ":".intercalate [tokOfStr c.handler, tokOfStr c.pubName, tokOfStr c.subName, tokOfStr c.subTopic, tokOfStr c.pubTopic]
+
+def refStr : Ref → String
+  | .consumed => "c" | .fresh k => "f" ++ toString k | .mw k => "m" ++ toString k
+
+def callStr (c : PubCall) : String :=
+  "P" ++ toString c.pub ++ "@" ++ tokOfStr c.topic ++ "[" ++
+    ",".intercalate (c.items.map fun (r, x) => refStr r ++ "~u~" ++ ctx5Str x) ++ "]"
+
+def resultStr (hs : List HCfg) (r : Result) : String :=
+  let fnIdx := match hs.findIdx? (·.name == r.fn) with | some i => toString i | none => "?"
+  "/".intercalate [toString r.mid, fnIdx, ctx5Str r.inCtx,
+    (match r.settle with | .ack => "A" | .nack => "N"),
+    (if r.calls.isEmpty then "-" else "+".intercalate (r.calls.map callStr))]
+
+def model (q : Req) : String :=
+  let calls := subscribeCalls q.hs
+  let subs := "subs=" ++ toString calls.length ++ ":" ++
+    ",".intercalate (q.hs.map fun h => toString (calls.count (h.sub, h.subTopic)))
+  let blocks := ((route q.hs q.ds).zipIdx.filter fun ((_, rs), _) => !rs.isEmpty).map fun ((_, rs), i) =>
+    "H" ++ toString i ++ ":" ++ ";".intercalate (rs.map (resultStr q.hs))
+  " ".intercalate ([subs, "orphans=0"] ++ blocks)
+
+/-! ### the property, evaluated on an observation – written without `handleOne` / `route` / `addHandlerContext` -/
+
+structure OItem where
+  ref : String
+  flag : String
+  ctx : List String
+
+structure OCall where
+  pub : String
+  topic : String
+  items : List OItem
+
+structure OMsg where
+  mid : Nat
+  fns : List String
+  ctx : List String
+  settle : String
+  calls : List OCall
+
+def parseItem (cs : List Char) : Option OItem :=
+  match splitOnChar '~' cs with
+  | [r, f, c] => some ⟨String.ofList r, String.ofList f, (splitOnChar ':' c).map String.ofList⟩
+  | _ => none
+
+def parseCall (cs : List Char) : Option OCall :=
+  match cs with
+  | 'P' :: rest =>
+    match splitOnChar '@' rest with
+    | [p, tail] =>
+      match splitOnChar '[' tail with
+      | [t, its] =>
+        match its.reverse with
+        | ']' :: body =>
+          let body := body.reverse
+          if body.isEmpty then some ⟨String.ofList p, String.ofList t, []⟩
+          else ((splitOnChar ',' body).mapM parseItem).map fun is => ⟨String.ofList p, String.ofList t, is⟩
+        | _ => none
+      | _ => none
+    | _ => none
+  | _ => none
+
+def parseMsg (cs : List Char) : Option OMsg :=
+  match splitOnChar '/' cs with
+  | [mid, fns, ctx, st, pubs] => do
+    let mid ← natOf mid
+    let fns := if fns == ['-'] then [] else (splitOnChar '+' fns).map String.ofList
+    let calls ← if pubs == ['-'] then some [] else (splitOnChar '+' pubs).mapM parseCall
+    pure ⟨mid, fns, (splitOnChar ':' ctx).map String.ofList, String.ofList st, calls⟩
+  | _ => none
+
+def parseBlock (tok : String) : Option (Nat × List OMsg) :=
+  match tok.toList with
+  | 'H' :: rest =>
+    match splitOnChar ':' rest with
+    | idx :: more => do
+      let i ← natOf idx
+      -- the message list itself contains ':' (ctx5): re-join
+      let body := (":".intercalate (more.map String.ofList)).toList
+      let msgs ← (splitOnChar ';' body).mapM parseMsg
+      pure (i, msgs)
+    | _ => none
+  | _ => none
+
+/-- does an observed ctx5 report handler `h`?  The publisher type name is demanded only when `h` has a publisher.
+    `stale`: router keys already on the incoming context – a field the handler leaves empty may then show through,
+    which the statement does not allow (the monitor still demands the handler's own, i.e. empty, value). -/
+def ctxOk (h : HCfg) (c : List String) : Bool :=
+  match c with
+  | [hn, pn, sn, st, pt] =>
+    hn == tokOfStr h.name && sn == tokOfStr h.subName && st == tokOfStr h.subTopic && pt == tokOfStr h.pubTopic &&
+      (h.pub.isNone || pn == tokOfStr h.pubName)
+  | _ => false
+
+def judgeMsg (i : Nat) (h : HCfg) (d : Delivery) (m : OMsg) : String :=
+  if m.mid != d.mid then "violated:routing"
+  else if m.settle == "T" && m.fns.isEmpty then "violated:not_delivered"
+  else if m.fns != [toString i] then "violated:wrong_function"
+  else if !ctxOk h m.ctx then "violated:ctx_in_handler"
+  else
+    -- objects the chain returned: what the function returned, then what the handler's middleware added
+    let returned : Option (List String) := match d.shape with
+      | .err => none
+      | .outs rs => some ((if h.fnMute then [] else rs.map refStr) ++ (List.range h.mwOut).map fun k => "m" ++ toString k)
+    match returned with
+    | none => if m.calls.isEmpty then "ok" else "violated:published_elsewhere"
+    | some [] => if m.calls.isEmpty then "ok" else "violated:published_elsewhere"
+    | some outs =>
+      match h.pub with
+      | none =>
+        if !m.calls.isEmpty then "violated:nopub_published"
+        else if m.settle != "N" then "violated:nopub_nack" else "ok"
+      | some p =>
+        -- every Publish call caused by this message goes to the handler's own publisher and topic; together, in call
+        -- order, the calls carry exactly the returned objects (the statement does not fix the number of calls)
+        let items := m.calls.foldl (fun acc c => acc ++ c.items) []
+        if m.calls.isEmpty then "violated:not_published"
+        else if m.calls.any (·.pub != toString p) then "violated:publish_target"
+        else if m.calls.any (·.topic != tokOfStr h.pubTopic) then "violated:publish_topic"
+        else if items.map (·.ref) != outs then "violated:publish_order_or_identity"
+        else if items.any (·.flag != "u") then "violated:modified"
+        else if items.any (fun it => !ctxOk h it.ctx) then "violated:ctx_on_produced"
+        else "ok"
+
+def monitor (q : Req) (obs : List String) : String := Id.run do
+  -- the process running the router died / a panic reached the harness / the router did not come up or did not settle
+  if let [o] := obs then
+    if o.startsWith "crash(" || o.startsWith "panic(" then return "violated:crash"
+    if o.startsWith "timeout" || o.startsWith "run-returned" then return "violated:not_delivered"
+  match obs with
+  | _subs :: orph :: blocks =>
+    if orph != "orphans=0" then return (if orph.startsWith "orphans=" then "violated:published_elsewhere" else "violated:shape")
+    -- a subscription whose messages no handler function ever received
+    if blocks.any (·.startsWith "H?:") then return "violated:not_delivered"
+    let some parsed := blocks.mapM parseBlock | return "violated:shape"
+    -- no block for a handler that does not exist, no handler twice
+    for (i, _) in parsed do
+      if i ≥ q.hs.length then return "violated:routing"
+      if (parsed.filter (·.1 == i)).length != 1 then return "violated:routing"
+    let mut i := 0
+    for h in q.hs do
+      let want := q.ds.filter fun d => d.sub == h.sub && d.topic == h.subTopic
+      let got := match parsed.find? (·.1 == i) with | some (_, ms) => ms | none => []
+      if got.length != want.length then return "violated:routing"
+      for (d, m) in want.zip got do
+        let v := judgeMsg i h d m
+        if v != "ok" then return v
+      i := i + 1
+    return "ok"
+  | _ => return "violated:shape"
+
+def handle (line : String) : String :=
+  match line.splitOn " " with
+  | "M" :: "route" :: toks =>
+    match parseReq toks with
+    | some q => model q
+    | none => "bad-op"
+  | "P" :: "route" :: rest =>
+    let toks := rest.takeWhile (· != "##")
+    let obs := (rest.dropWhile (· != "##")).drop 1
+    if obs.isEmpty then "bad-op" else
+    match parseReq toks with
+    | some q => monitor q obs
+    | none => "bad-op"
+  | _ => "bad-op"
+
+def main : IO Unit := driverMain handle
